@@ -108,7 +108,7 @@ example : ∃ fr, (setSimJoinPy .jaccard exArgs {} exToks 4).result = .ok fr ∧
     ∃ row ∈ fr.rows, rowKeys row = (keyOf exL "id" exLs, keyOf exR "id" exRs) := by
   obtain ⟨fr, hres, row, hrow, hk, -⟩ :=
     EntrySetSim.complete .jaccard exArgs {} exToks 4 exL exR (Or.inl rfl) exValid (1 / 2) rfl exThr exScope
-      exLs exLs_mem exRs exRs_mem exLs_present exRs_present exPair_nonempty exPair_qual
+      exLs exLs_mem exRs exRs_mem exLs_present exRs_present exPair_nonempty exPair_qual (by decide +kernel)
   exact ⟨fr, hres, setsim_once .jaccard exArgs {} exToks 4 exL exR exValid exScope fr hres, row, hrow, hk⟩
 
 example (fr : Frame) (hres : (setSimJoinPy .jaccard exArgs {} exToks 4).result = .ok fr) (row : Row)
